@@ -316,7 +316,11 @@ func drawC11(t *rapid.T, x *X) *Case {
 	c := drawBase(t, x, 40)
 	// in left-recursive grammars the n-th invocation of a block is not a stable notion (the
 	// seed-growing loop re-evaluates alternatives): faults fire on every invocation there
-	c.Plan = drawPlan(t, x.G.Spec, 4, x.G.Spec.Profile == "leftrec", true)
+	nf := 4
+	if x.G.Spec.Profile == "leftrec" {
+		nf = 6
+	}
+	c.Plan = drawPlan(t, x.G.Spec, nf, x.G.Spec.Profile == "leftrec", true)
 	c.Opts.NoRecover = gspec.U(t, 4, "norecover") == 0
 	return c
 }
